@@ -538,7 +538,13 @@ def emit():
     consts.update(section("const_nodata_cmp", lambda: parse_nodata_cmp(files)))
     consts.update(section("const_prealloc", lambda: parse_prealloc(files)))
     consts.update(section("const_sentinels", lambda: parse_sentinels(files)))
+    accounted = cache.get("alloc_sites")
     alloc_sites = section("alloc_sites", lambda: parse_alloc_sites(files))
+    if status.get("alloc_sites") == "ok" and accounted is not None and os.environ.get("VERIF_UPDATE_TABLES_CACHE") != "1":
+        a, b = {t for t, _ in accounted}, {t for t, _ in alloc_sites}
+        if a != b:
+            status["alloc_sites"] = ("pre-sizing sites of the reading code differ from the ones the model accounts for: new "
+                                     + str(sorted(b - a)) + ", gone " + str(sorted(a - b)))
     save_state(cache, status)
 
     L = []
